@@ -268,6 +268,13 @@ def run(ctx: Ctx) -> None:
     ctx.rule = ("every constraint token string over {x y z 0 1 2 3 + - * / = , ( )} up to the bound x 2 column lists x string/list/mapping forms; "
                 "trace: random expressions of depth <= 8; non-trivial = accepted, grammatical and >= 3 tokens")
     ctx.trusted = ["Fraction(float).limit_denominator(1e6) to read (A, b) exactly", "TLC", "Rat.tla within 32-bit range (small literals)"]
+    # the empty specification in each of its three forms is zero constraints (the model's value of the empty token string)
+    for form, spec in (("string", ""), ("list", []), ("dict", {})):
+        obs = observe(spec, NAMELISTS[0])
+        ctx.traces += 1
+        ctx.evaluations += 1
+        if obs != {"st": "OK", "rows": []}:
+            ctx.violation({"spec": repr(spec), "form": form, "names": NAMELISTS[0]}, {"why": "the empty specification is not zero constraints", "observed": obs}, kind="replay")
     if ctx.quick:
         enumerated(ctx, 4)
         trace_leg(ctx, 2500)
